@@ -37,12 +37,12 @@ type Para struct {
 }
 
 type Doc struct {
-	LeadBlank    int    `json:"lb,omitempty"`
-	LeadLoose    []string `json:"ll,omitempty"` // free-standing comment block before the first paragraph
-	Paras        []Para `json:"p"`
-	CRLF         int    `json:"crlf,omitempty"` // 0 LF, 1 CRLF, 2 mixed (alternating by line)
-	NoFinalNL    bool   `json:"nofinal,omitempty"`
-	BlankWithCR  bool   `json:"-"`
+	LeadBlank   int      `json:"lb,omitempty"`
+	LeadLoose   []string `json:"ll,omitempty"` // free-standing comment block before the first paragraph
+	Paras       []Para   `json:"p"`
+	CRLF        int      `json:"crlf,omitempty"` // 0 LF, 1 CRLF, 2 mixed (alternating by line)
+	NoFinalNL   bool     `json:"nofinal,omitempty"`
+	BlankWithCR bool     `json:"-"`
 }
 
 // Lines gives the field's logical lines: a non-empty first line, then the
